@@ -1579,8 +1579,8 @@ theorem transform_spec (sc : Sidecar) (e : J) (x : Str) :
   · intro h; simp [trOfEntry, h]
   · intro h; simp [trOfEntry, h]
   · intro h; simp [trOfEntry, h]
-  · intro es; simp only [applyTr]; cases es.lookup x <;> rfl
-  · intro t; rfl
+  · intro es; simp only [applyTr, categoryHandler]; cases es.lookup x <;> rfl
+  · intro t; simp [applyTr, valueHandler, isMissing, substPound]
 
 /-- Without references the annotation of a row is the `", "`-join, in column-name order, of each
 transformer column's contribution, skipping empty and `n/a` ones. -/
@@ -2342,5 +2342,130 @@ theorem ref_order_blank_counterexample :
     replaceRef (replaceRef "{a},{b}".toList ['a'] NA) ['b'] " X ".toList = " X ".toList ∧
     replaceRef (replaceRef "{a},{b}".toList ['b'] " X ".toList) ['a'] NA = "X ".toList := by
   decide +kernel
+
+end HedVerif.C06
+
+/-! ### which cells are missing -/
+
+namespace HedVerif.C06
+open HedVerif.Assemble
+
+/-- **A cell is missing exactly when it is `n/a` or empty** — the whole cell, compared by equality. -/
+theorem isMissing_iff (c : Str) : isMissing c = true ↔ c = NA ∨ c = [] := by
+  simp [isMissing]
+
+/-- …so no proper substring of `n/a`, no other spelling and no padded `n/a` is missing. -/
+theorem isMissing_near_misses :
+    ∀ c ∈ ["n", "a", "/", "n/", "/a", "N/A", "n/a ", " n/a", "na", "nan", "NaN", "None", "NA", "null",
+           "0", "-", " ", "#"].map String.toList, isMissing c = false := by
+  decide +kernel
+
+/-- The value handler drops the template exactly for missing cells; every other cell — including the
+near-misses above — is substituted for `#`. -/
+theorem valueHandler_spec (t x : Str) :
+    valueHandler t x = (if x = NA ∨ x = [] then NA else substPound x t) ∧
+    (isMissing x = false → valueHandler t x = substPound x t) ∧
+    (isMissing x = true → keep (valueHandler t x) = false) := by
+  refine ⟨by simp [valueHandler, isMissing], ?_, ?_⟩
+  · intro h; simp [valueHandler, h]
+  · intro h; simp [valueHandler, h]; decide
+
+/-- `combine_dataframe` keeps an item exactly when it is not missing (same notion of missing). -/
+theorem keep_iff_not_missing (e : Str) : keep e = !isMissing e := by
+  cases e with
+  | nil => rfl
+  | cons c cs => simp [keep, isMissing, bne]
+
+/-- The category handler has no notion of a missing cell: the cell is looked up as it is, so an entry
+keyed `n/a` (or the empty string) in the sidecar is selected by an `n/a` (empty) cell. -/
+theorem categoryHandler_spec (es : List (Str × Str)) (x : Str) :
+    categoryHandler es x = (match es.lookup x with | some v => v | none => []) ∧
+    categoryHandler [(NA, "Red".toList)] NA = "Red".toList := by
+  constructor
+  · simp only [categoryHandler]; cases es.lookup x <;> rfl
+  · decide +kernel
+
+end HedVerif.C06
+
+/-! ### removal as deletion in the tag tree: bounded, kernel-checked -/
+
+namespace HedVerif.Assemble
+
+/-- a rendered forest with one kind of reference leaf: the text, the text of the same forest with the
+reference leaves deleted and the groups left empty dropped (`none` = nothing is left), number of references -/
+structure PR where
+  text : Str
+  pruned : Option Str
+  refs : Nat
+deriving DecidableEq
+
+def PR.leafTag : PR := ⟨['R'], some ['R'], 0⟩
+def PR.leafRef : PR := ⟨['{', 'c', '}'], none, 1⟩
+
+/-- `a, b` -/
+def PR.seq (a b : PR) : PR :=
+  ⟨a.text ++ SEP ++ b.text,
+   match a.pruned, b.pruned with
+   | some x, some y => some (x ++ SEP ++ y)
+   | some x, none => some x
+   | none, y => y,
+   a.refs + b.refs⟩
+
+/-- `(a)` -/
+def PR.paren (a : PR) : PR :=
+  ⟨'(' :: a.text ++ [')'], a.pruned.map fun x => '(' :: x ++ [')'], a.refs⟩
+
+structure Level where
+  i1 : List PR
+  i2 : List PR
+  i3 : List PR
+  f1 : List PR
+  f2 : List PR
+  f3 : List PR
+
+def pairs (as bs : List PR) : List PR := as.flatMap fun a => bs.map fun b => a.seq b
+
+/-- items (one top-level tag or group) and forests with exactly 1, 2, 3 leaves, groups nested ≤ `d` deep -/
+def level : Nat → Level
+  | 0 =>
+    let i1 := [PR.leafTag, PR.leafRef]
+    let f2 := pairs i1 i1
+    ⟨i1, [], [], i1, f2, pairs i1 f2⟩
+  | d + 1 =>
+    let p := level d
+    let i1 := [PR.leafTag, PR.leafRef] ++ p.f1.map PR.paren
+    let i2 := p.f2.map PR.paren
+    let i3 := p.f3.map PR.paren
+    let f2 := i2 ++ pairs i1 i1
+    ⟨i1, i2, i3, i1, f2, i3 ++ pairs i1 f2 ++ pairs i2 i1⟩
+
+def oneRef (d : Nat) : List PR :=
+  ((level d).f1 ++ (level d).f2 ++ (level d).f3).filter fun p => p.refs == 1
+
+def pruneOK (p : PR) : Bool := replaceRef p.text ['c'] NA == p.pruned.getD []
+
+end HedVerif.Assemble
+
+namespace HedVerif.C06
+open HedVerif.Assemble
+
+/-- **Removal is deletion in the tag tree** (bounded, kernel-checked).  For every forest of at most 3
+leaves (tags `R` or the reference `{c}`), groups nested up to 3 deep, written canonically with `", "`
+and containing the reference exactly once (802 texts — alone, first/middle/last, in a group, sole member of
+a group, nested): with the referenced cell `n/a` or empty, `replace_ref` returns *exactly* the canonical
+text of the forest with the reference leaf deleted and every group left empty dropped ("disappears
+together with the comma or parentheses that only surrounded it"). -/
+theorem removal_is_tree_pruning_bounded : ∀ p ∈ oneRef 3,
+    replaceRef p.text ['c'] NA = p.pruned.getD [] ∧ replaceRef p.text ['c'] [] = p.pruned.getD [] := by
+  have h : ∀ p ∈ oneRef 3, (pruneOK p && (replaceRef p.text ['c'] [] == p.pruned.getD [])) = true := by
+    decide +kernel
+  intro p hp
+  have := h p hp
+  simp only [pruneOK, Bool.and_eq_true, beq_iff_eq] at this
+  exact this
+
+example : (oneRef 3).length = 802 ∧
+    (⟨"(R), ((({c})), (R))".toList, some "(R), ((R))".toList, 1⟩ : PR) ∈ oneRef 3 ∧
+    (⟨"(({c}))".toList, none, 1⟩ : PR) ∈ oneRef 3 := by decide +kernel
 
 end HedVerif.C06
